@@ -33,8 +33,8 @@ type stub struct {
 	url      string
 	mu       sync.Mutex
 	healthy  bool
-	inSpec   bool
-	disabled bool
+	inSpec   bool // some spelling of this stub is a server of the current spec
+	mayRecv  bool // ... and at least one such spelling is not marked disabled (spellings are distinct endpoints for the gateway)
 	probes   int
 	requests []string // X-Verif-Request ids received
 	viol     []string
@@ -43,12 +43,12 @@ type stub struct {
 func (s *stub) ServeHTTP(w http.ResponseWriter, r *http.Request) {
 	s.mu.Lock()
 	defer s.mu.Unlock()
-	if r.URL.Path == "/healthz" {
+	if strings.HasSuffix(r.URL.Path, "/healthz") {
 		s.probes++
 		if !s.inSpec {
 			s.viol = append(s.viol, "stub "+s.url+" received a /healthz probe while it is not in the server list")
-		} else if s.disabled {
-			s.viol = append(s.viol, "stub "+s.url+" received a /healthz probe while it is marked disabled")
+		} else if !s.mayRecv {
+			s.viol = append(s.viol, "stub "+s.url+" received a /healthz probe while every server entry naming it is marked disabled")
 		}
 		if s.healthy {
 			w.WriteHeader(200)
@@ -60,6 +60,11 @@ func (s *stub) ServeHTTP(w http.ResponseWriter, r *http.Request) {
 		return
 	}
 	s.requests = append(s.requests, r.Header.Get("X-Verif-Request"))
+	if !s.inSpec {
+		s.viol = append(s.viol, "stub "+s.url+" received the proxied request "+r.Header.Get("X-Verif-Request")+" while it is not in the server list")
+	} else if !s.mayRecv {
+		s.viol = append(s.viol, "stub "+s.url+" received the proxied request "+r.Header.Get("X-Verif-Request")+" while every server entry naming it is marked disabled")
+	}
 	w.Header().Set("X-Verif-Stub", s.url)
 	w.WriteHeader(200)
 	io.WriteString(w, `{"kind":"Status","apiVersion":"v1","status":"Success"}`)
@@ -99,9 +104,21 @@ type DOp struct {
 	Policy   int     `json:"policy"`
 }
 
+// DSrv is a server entry: stub number + 10 * spelling (0 plain URL, 1 trailing "/", 2 path "/base"); subsets and trigger ops
+// use the same references. The gateway treats different spellings as different endpoints.
 type DSrv struct {
 	Stub int  `json:"stub"`
 	Dis  bool `json:"dis"`
+}
+
+var spellSuffix = []string{"", "/", "/base"}
+
+func refName(r int) string {
+	n := fmt.Sprintf("stub%d", r%10)
+	if r >= 10 {
+		n += fmt.Sprintf("%q", spellSuffix[(r/10)%len(spellSuffix)])
+	}
+	return n
 }
 
 type DCase struct {
@@ -118,15 +135,23 @@ func readableD(cs DCase) string {
 		case "sync":
 			var s []string
 			for _, x := range op.Servers {
-				n := fmt.Sprintf("stub%d", x.Stub)
+				n := refName(x.Stub)
 				if x.Dis {
 					n += "(disabled)"
 				}
 				s = append(s, n)
 			}
-			fmt.Fprintf(&b, "sync servers=%v subsets=%v healthy=%v", s, op.Subsets, op.Healthy)
+			var subs []string
+			for _, sub := range op.Subsets {
+				var l []string
+				for _, r := range sub {
+					l = append(l, refName(r))
+				}
+				subs = append(subs, fmt.Sprint(l))
+			}
+			fmt.Fprintf(&b, "sync servers=%v subsets=%v healthy=%v", s, subs, op.Healthy)
 		case "trigger":
-			fmt.Fprintf(&b, "trigger(stub%d) healthy=%v", op.Stub, op.Healthy)
+			fmt.Fprintf(&b, "trigger(%s) healthy=%v", refName(op.Stub), op.Healthy)
 		case "request":
 			fmt.Fprintf(&b, "request for policy %d", op.Policy)
 		}
@@ -146,7 +171,8 @@ func runDispatch(c *rig.Ctx, cs DCase, record bool, st *stats) bool {
 		return false
 	}
 	ss := theStubs()
-	hexOf := func(i int) string { return rig.Hex(ss[i].url) }
+	urlOf := func(r int) string { return ss[(r%10)%len(ss)].url + spellSuffix[(r/10)%len(spellSuffix)] }
+	hexOf := func(r int) string { return rig.Hex(urlOf(r)) }
 	// translate to the in-process vocabulary (for the planning run and the judge)
 	var ops []lib.Op
 	upOf := func(h []bool) []lib.UpEnt {
@@ -156,7 +182,9 @@ func runDispatch(c *rig.Ctx, cs DCase, record bool, st *stats) bool {
 			if i < len(h) {
 				v = h[i]
 			}
-			u = append(u, lib.UpEnt{N: hexOf(i), H: v})
+			for sp := range spellSuffix {
+				u = append(u, lib.UpEnt{N: hexOf(i + 10*sp), H: v})
+			}
 		}
 		return u
 	}
@@ -196,7 +224,7 @@ func runDispatch(c *rig.Ctx, cs DCase, record bool, st *stats) bool {
 	}
 	for _, s := range ss {
 		s.mu.Lock()
-		s.inSpec, s.disabled, s.healthy, s.probes, s.requests, s.viol = false, false, false, 0, nil, nil
+		s.inSpec, s.mayRecv, s.healthy, s.probes, s.requests, s.viol = false, false, false, 0, nil, nil
 		s.mu.Unlock()
 	}
 	w := lib.NewWorld()
@@ -227,18 +255,24 @@ func runDispatch(c *rig.Ctx, cs DCase, record bool, st *stats) bool {
 			switch d.Op {
 			case "sync":
 				setHealth(d.Healthy)
-				for _, s := range ss {
-					s.mu.Lock()
-					s.inSpec, s.disabled = false, false
-					s.mu.Unlock()
-				}
+				// an endpoint (one spelling) is disabled if any entry with that spelling says so; a stub may be contacted
+				// iff some spelling naming it is a server and is not disabled
+				disabledRef := map[int]bool{}
 				for _, x := range d.Servers {
-					ss[x.Stub].mu.Lock()
-					ss[x.Stub].inSpec = true
-					if x.Dis {
-						ss[x.Stub].disabled = true
+					disabledRef[x.Stub] = disabledRef[x.Stub] || x.Dis
+				}
+				for j, s := range ss {
+					s.mu.Lock()
+					s.inSpec, s.mayRecv = false, false
+					for ref, dis := range disabledRef {
+						if (ref%10)%len(ss) == j {
+							s.inSpec = true
+							if !dis {
+								s.mayRecv = true
+							}
+						}
 					}
-					ss[x.Stub].mu.Unlock()
+					s.mu.Unlock()
 				}
 				w.SetUp(ops[k].Up)
 				if err := w.Sync(ops[k].Servers, ops[k].Policies); err != nil {
@@ -266,7 +300,8 @@ func runDispatch(c *rig.Ctx, cs DCase, record bool, st *stats) bool {
 				ctx = genericapirequest.WithRequestInfo(ctx, &genericapirequest.RequestInfo{IsResourceRequest: true, Path: req.URL.Path, Verb: "get",
 					APIPrefix: "api", APIVersion: "v1", Namespace: "default", Resource: fmt.Sprintf("r%d", d.Policy)})
 				ctx = gatewayrequest.WithExtraRequestInfo(ctx, &gatewayrequest.ExtraRequestInfo{Scheme: "http", Hostname: "c", UpstreamCluster: w.CI, IsProxyRequest: true, ReaderWriter: fakeRW{}})
-				ctx = gatewayrequest.WithProxyInfo(ctx, gatewayrequest.NewProxyInfo())
+				pinfo := gatewayrequest.NewProxyInfo()
+				ctx = gatewayrequest.WithProxyInfo(ctx, pinfo)
 				rec := httptest.NewRecorder()
 				done := make(chan struct{})
 				go func() {
@@ -299,7 +334,7 @@ func runDispatch(c *rig.Ctx, cs DCase, record bool, st *stats) bool {
 					if len(us) == 0 {
 						seen := map[int]bool{}
 						for _, x := range curServers {
-							if !seen[x.Stub] {
+							if !seen[x.Stub] { // x.Stub is a (stub, spelling) reference
 								seen[x.Stub] = true
 								us = append(us, hexOf(x.Stub))
 							}
@@ -333,9 +368,16 @@ func runDispatch(c *rig.Ctx, cs DCase, record bool, st *stats) bool {
 						opErr = "judge:c03.dispatch-503-no-retry-after:503 without Retry-After"
 					}
 				case code == 200 && len(got) == 1 && rec.Header().Get("X-Verif-Stub") == ss[got[0]].url:
-					e, ok := w.Load(hexOf(got[0]))
+					// the endpoint the dispatcher says it picked (ProxyInfo.Endpoint) must be a spelling of the stub that
+					// actually received the request
+					picked := pinfo.Endpoint
+					if !pinfo.Forwarded || !(picked == ss[got[0]].url || strings.HasPrefix(picked, ss[got[0]].url+"/")) {
+						opErr = fmt.Sprintf("judge:c03.dispatch-wrong-target:%s: the dispatcher recorded endpoint %q (forwarded=%v) but %s received the request", id, picked, pinfo.Forwarded, ss[got[0]].url)
+						break
+					}
+					e, ok := w.Load(rig.Hex(picked))
 					if !ok {
-						impl[k+1].Out = &lib.OutJ{Ok: lib.Ident{N: hexOf(got[0]), Gen: -1}}
+						impl[k+1].Out = &lib.OutJ{Ok: lib.Ident{N: rig.Hex(picked), Gen: -1}}
 					} else {
 						impl[k+1].Out = &lib.OutJ{Ok: w.Ident(e)}
 					}
@@ -399,16 +441,18 @@ func runDispatch(c *rig.Ctx, cs DCase, record bool, st *stats) bool {
 	}
 	// every probe the gateway made arrived at the stub it was meant for
 	eps, _, _ := w.Snapshot()
-	for _, e := range eps {
-		for _, s := range ss {
-			if rig.Hex(s.url) == e.N {
-				s.mu.Lock()
-				n := s.probes
-				s.mu.Unlock()
-				if n < e.Probes {
-					return fail("diff", "c03.dispatch-probes", fmt.Sprintf("stub %s saw %d /healthz probes, its current endpoint object made %d", s.url, n, e.Probes), nil)
-				}
+	for _, s := range ss {
+		made := 0
+		for _, e := range eps {
+			if n := rig.UnHex(e.N); n == s.url || strings.HasPrefix(n, s.url+"/") {
+				made += e.Probes
 			}
+		}
+		s.mu.Lock()
+		n := s.probes
+		s.mu.Unlock()
+		if n < made {
+			return fail("diff", "c03.dispatch-probes", fmt.Sprintf("stub %s saw %d /healthz probes, its current endpoint objects made %d", s.url, n, made), nil)
 		}
 	}
 	var m modelReply
@@ -449,13 +493,22 @@ func genDispatch(c *rig.Ctx) DCase {
 		return h
 	}
 	var servers []DSrv
+	ref := func(stub int) int { // mostly the plain spelling
+		switch r.Intn(10) {
+		case 0, 1:
+			return stub + 10
+		case 2:
+			return stub + 20
+		}
+		return stub
+	}
 	syncOp := func() DOp {
 		switch r.Intn(4) {
 		case 0:
 			servers = nil
 			for i := 0; i < ns; i++ {
 				if r.Intn(3) != 0 {
-					servers = append(servers, DSrv{Stub: i, Dis: r.Intn(4) == 0})
+					servers = append(servers, DSrv{Stub: ref(i), Dis: r.Intn(4) == 0})
 				}
 			}
 		case 1:
@@ -470,13 +523,17 @@ func genDispatch(c *rig.Ctx) DCase {
 				servers = append(append([]DSrv{}, servers[:i]...), servers[i+1:]...)
 			}
 		default:
-			servers = append(append([]DSrv{}, servers...), DSrv{Stub: r.Intn(ns), Dis: r.Intn(4) == 0})
+			servers = append(append([]DSrv{}, servers...), DSrv{Stub: ref(r.Intn(ns)), Dis: r.Intn(4) == 0})
 		}
 		subsets := [][]int{{}}
 		for i, n := 0, 1+r.Intn(2); i < n; i++ {
 			s := []int{}
 			for j, k := 0, 1+r.Intn(3); j < k; j++ {
-				s = append(s, r.Intn(ns))
+				if len(servers) > 0 && r.Intn(4) != 0 {
+					s = append(s, servers[r.Intn(len(servers))].Stub)
+				} else {
+					s = append(s, ref(r.Intn(ns)))
+				}
 			}
 			subsets = append(subsets, s)
 		}
@@ -485,10 +542,10 @@ func genDispatch(c *rig.Ctx) DCase {
 	}
 	for i := 0; i < ns; i++ {
 		if r.Intn(4) != 0 {
-			servers = append(servers, DSrv{Stub: i, Dis: r.Intn(5) == 0})
+			servers = append(servers, DSrv{Stub: ref(i), Dis: r.Intn(5) == 0})
 		}
 	}
-	first := DOp{Op: "sync", Servers: append([]DSrv{}, servers...), Subsets: [][]int{{}, {r.Intn(ns), r.Intn(ns)}}, Healthy: health()}
+	first := DOp{Op: "sync", Servers: append([]DSrv{}, servers...), Subsets: [][]int{{}, {ref(r.Intn(ns)), ref(r.Intn(ns))}}, Healthy: health()}
 	cs := DCase{Dispatch: []DOp{first}}
 	npol := 2
 	for n := 4 + r.Intn(12); len(cs.Dispatch) < n; {
@@ -498,7 +555,11 @@ func genDispatch(c *rig.Ctx) DCase {
 			npol = len(op.Subsets)
 			cs.Dispatch = append(cs.Dispatch, op)
 		case x < 4:
-			cs.Dispatch = append(cs.Dispatch, DOp{Op: "trigger", Stub: r.Intn(ns), Healthy: health()})
+			t := ref(r.Intn(ns))
+			if len(servers) > 0 && r.Intn(3) != 0 {
+				t = servers[r.Intn(len(servers))].Stub
+			}
+			cs.Dispatch = append(cs.Dispatch, DOp{Op: "trigger", Stub: t, Healthy: health()})
 		default:
 			cs.Dispatch = append(cs.Dispatch, DOp{Op: "request", Policy: r.Intn(npol + 1)})
 		}
